@@ -73,25 +73,38 @@ Proof. exact never_forced_server_close. Qed.
 (** TWO sockets on one connection (Sio/Lifecycle2.v): each with its own admission goroutine and its
     own once; the connection's close loop calls socket.onClose for the sockets of its snapshot in any
     order and WAITS for each (a socket's close lasts as long as the user's disconnecting handlers);
-    either socket may be anywhere in its admission meanwhile.  For every schedule and for either
+    either socket may be anywhere in its admission meanwhile.  The sockets belong to two namespaces
+    ([same = false]) or to one ([same = true], see below).  For every schedule and for either
     socket [w]: at most once, never without connecting, disconnecting before disconnect; exactly
     once at quiescence once its end began; nothing left after the connection's or namespace's end. *)
-Theorem C06_two_sockets_exactly_once_no_trace : forall sched (w : bool),
-  let s := run2 sched in let k := gsk w s in
+Theorem C06_two_sockets_exactly_once_no_trace : forall (same : bool) sched (w : bool),
+  let s := run2 same sched in let k := gsk w s in
   (nd k <= 1) /\ (ndg k <= 1)
   /\ (ever k = false -> nd k = 0 /\ ndg k = 0)
   /\ (nd k = 1 -> ndg k = 1 /\ o k = Done /\ conn k = false)
-  /\ (quiescent2 true s = true -> ever k = true -> end_begun2 s k = true -> nd k = 1 /\ ndg k = 1)
-  /\ (quiescent2 true s = true -> e_once2 s = Done -> sk_clean k = true /\ store2 s = false)
-  /\ (quiescent2 true s = true -> o k = Done -> sk_clean k = true).
+  /\ (quiescent2 (code2 same) s = true -> ever k = true -> end_begun2 s k = true -> nd k = 1 /\ ndg k = 1)
+  /\ (quiescent2 (code2 same) s = true -> e_once2 s = Done -> sk_clean k = true /\ store2 s = false)
+  /\ (quiescent2 (code2 same) s = true -> o k = Done -> sk_clean k = true).
 Proof. exact two_spec. Qed.
+
+(** [same = true] above: two CONNECT packets for ONE namespace whose goroutines overlap are both
+    admitted (two sockets; conn.sockets holds both by id, the later one by namespace) - each of the
+    two is still reported exactly once and leaves nothing.  Not so if the table's `set` dropped the
+    by-id entry of the socket it displaces: the displaced socket is connected but unknown to its
+    connection, and the connection's end never reaches it. *)
+Theorem C06_duplicate_connect_displaced_socket_refuted :
+  exists sched, let s := exec (cstep2 (mkCfg2 true true true)) sched cinit2 in
+    quiescent2 (mkCfg2 true true true) s = true /\ e_once2 s = Done /\ store2 s = false
+    /\ nd (skB s) = 1 /\ sk_clean (skB s) = true
+    /\ ever (skA s) = true /\ nd (skA s) = 0 /\ conn (skA s) = true /\ innsp (skA s) = true /\ room (skA s) = true.
+Proof. exists sched_displace. exact displace_witness. Qed.
 
 (** Why the closed flag must be set BEFORE getAndRemoveAll and the loop: set after the loop, a socket
     that leaves its middleware while the loop is busy closing the other socket is neither in the
     snapshot nor sees the flag - it stays connected, listed and in its room for ever. *)
 Theorem C06_closed_flag_after_loop_refuted :
-  exists sched, let s := exec (cstep2 false) sched cinit2 in
-    quiescent2 false s = true /\ e_once2 s = Done /\ store2 s = false
+  exists sched, let s := exec (cstep2 (mkCfg2 false false false)) sched cinit2 in
+    quiescent2 (mkCfg2 false false false) s = true /\ e_once2 s = Done /\ store2 s = false
     /\ nd (skA s) = 1 /\ sk_clean (skA s) = true
     /\ ever (skB s) = true /\ nd (skB s) = 0 /\ conn (skB s) = true /\ innsp (skB s) = true /\ room (skB s) = true.
 Proof. exists sched_flag_late. exact flag_late_witness. Qed.
